@@ -4,7 +4,7 @@
    from the freshly generated derived.gen.go. *)
 From Coq Require Import List.
 Import ListNotations.
-From Verif Require Import Chan.Sem Chan.Expected Chan.Lemmas Chan.FmapProofs Chan.DupProofs Chan.JoinCC Chan.JoinCCLive.
+From Verif Require Import Chan.Sem Chan.Expected Chan.Lemmas Chan.FmapProofs Chan.DupProofs Chan.JoinCC Chan.JoinCCLive Chan.JoinSl Chan.JoinSlLive Chan.Explore Chan.Bounded.
 
 (* ---------------- deriveFmap(f, <-chan) ---------------- *)
 Theorem C19_fmap_safety : forall (f : item -> item) xs cin cout s,
@@ -110,3 +110,60 @@ Theorem C19_joincc_terminates : forall (f : item -> item) inputs cin cout l s,
   length l <= JoinCC.mu (joincc_init inputs cin cout).
 Proof. exact joincc_terminates. Qed.
 Print Assumptions C19_joincc_terminates.
+
+(* ---------------- deriveJoin(in []<-chan T): any number of input channels ---------------- *)
+Theorem C19_joinsl_safety : forall (f : item -> item) inputs cout s,
+  reach f (fn_progs exp_join_sl) (joinsl_init inputs cout) s ->
+  panicked s = false
+  /\ (exists dls, length dls = length inputs /\ Merge dls (cons_log s 1 ++ ch_buf s 0) /\
+        forall j cp its dl, nth_error inputs j = Some (cp, its) -> nth_error dls j = Some dl ->
+                            exists rest, its = dl ++ rest)
+  /\ (ch_closed s 0 = true ->
+        wg s = 0 /\ length (thr s) = 2 + length inputs + length inputs
+        /\ (forall j, j < length inputs ->
+               prod_done s (2 + j) = true /\ ch_closed s (1 + j) = true /\ ch_buf s (1 + j) = []
+               /\ option_map (halted (fn_progs exp_join_sl)) (nth_error (thr s) (2 + length inputs + j)) = Some true)
+        /\ Merge (map snd inputs) (cons_log s 1 ++ ch_buf s 0)).
+Proof. exact joinsl_safety. Qed.
+Print Assumptions C19_joinsl_safety.
+
+Theorem C19_joinsl_deadlock_free_no_leak : forall (f : item -> item) inputs cout s,
+  reach f (fn_progs exp_join_sl) (joinsl_init inputs cout) s -> stuck f (fn_progs exp_join_sl) s ->
+  all_halted (fn_progs exp_join_sl) s = true /\ Merge (map snd inputs) (cons_log s 1) /\ ch_closed s 0 = true.
+Proof. exact joinsl_stuck_is_done. Qed.
+Print Assumptions C19_joinsl_deadlock_free_no_leak.
+
+Theorem C19_joinsl_measure_decreases : forall (f : item -> item) inputs cout s act s',
+  reach f (fn_progs exp_join_sl) (joinsl_init inputs cout) s ->
+  step f (fn_progs exp_join_sl) s act = Some s' -> JoinSl.mu s' < JoinSl.mu s.
+Proof. exact joinsl_measure_decreases. Qed.
+Print Assumptions C19_joinsl_measure_decreases.
+
+Theorem C19_joinsl_terminates : forall (f : item -> item) inputs cout l s,
+  run f (fn_progs exp_join_sl) (joinsl_init inputs cout) l = Some s ->
+  length l <= JoinSl.mu (joinsl_init inputs cout).
+Proof. exact joinsl_terminates. Qed.
+Print Assumptions C19_joinsl_terminates.
+
+(* ---------------- NOT proved for all sizes: bounded statements only ---------------- *)
+(* variadic deriveJoin(c0, .., c(n-1)) (select loop): for n = 2 (0..2 items per input, capacities
+   0..1) and n = 3 (0..1 items, capacities 0..1) EVERY interleaving of the expected IR ends with
+   all goroutines halted, out closed, and an interleaving of all inputs delivered; no panic, no
+   deadlock, no cycle.  MISSING: the invariant proof for all item lists / capacities / n. *)
+Theorem C19_joinvar_bounded_partial :
+  no_violation (search_all KJoinVar (exp_join_var 2) joinvar_configs2 2000 0%N 0%N) = true
+  /\ no_violation (search_all KJoinVar (exp_join_var 3) joinvar_configs3 2000 0%N 0%N) = true.
+Proof. exact (conj joinvar2_bounded joinvar3_bounded). Qed.
+Print Assumptions C19_joinvar_bounded_partial.
+
+(* derivePipeline(f, g) = Join . Fmap(g): the composed system (fmap's goroutine as the producer of
+   join's input) explored exhaustively for the listed configurations.  The translator checks the
+   composition shape on every run and C19_fmap_* / C19_joincc_* are proved for all sizes for the
+   two components (join: for the environment producer that fmap's output is shown to behave as:
+   sends map f xs in order, then closes).  MISSING: the simulation lemma that lets the fmap
+   goroutine replace join's outer producer for all sizes. *)
+Theorem C19_pipeline_compose_bounded_partial :
+  forallb (fun cfg => match found (pipe_search_one cfg) with None => true | Some _ => false end)
+          pipe_configs = true.
+Proof. exact pipeline_bounded. Qed.
+Print Assumptions C19_pipeline_compose_bounded_partial.
